@@ -13,7 +13,7 @@ calls), routed to the real kernel (`impl`) and to the driver op `gen_kernel` (Dr
 The owner's cases and verdict logic are untouched.
 
 Case format:  {"op": "gen_kernel", "kernel": <name>, "args": [{"arr": [...]}, {"barr": [...]}, {"int": n}, {"bool": b},
-               {"none": true}], "fuel": n, "_unsafe": bool}
+               {"str": "..."}, {"none": true}], "fuel": n, "_unsafe": bool}
 `_unsafe` marks a call that may subscript out of range: compiled code does not check subscripts, so such a call is only
 executed interpreted / bounds-checked (USE_NUMBA=false, NUMBA_BOUNDSCHECK=1), never in the plain JIT mode."""
 import os
@@ -67,6 +67,9 @@ KERNELS = {
     "categorical_transform": {"owner": "C06", "mutated": [0]},                 # returns None: the result is `chunk`
     "leaky_categorical_transform": {"owner": "C06", "mutated": [0, 1, 2]},     # chunk, freetext_indices, freetext_values
     "fixed_string_transform": {"owner": "C06", "mutated": [6]},                # returns None: the result is `memory`
+    # (exception_message, exception_args: list of arrays), elements, validity; column_vals / field_name are uint8 as at the call
+    # site (NumericImporter.import_part), validation_mode a Python str
+    "numeric_bool_transform": {"owner": "C06", "mutated": [0, 1], "dtypes": {3: "uint8", 9: "uint8"}},
     "generate_ordered_map_to_left_both_unique": {"owner": "C19", "mutated": [2]},
     "generate_ordered_map_to_left_right_unique": {"owner": "C19", "mutated": [2]},
     "ordered_inner_map_both_unique": {"owner": "C19", "mutated": [2, 3]},      # returns None
@@ -93,6 +96,9 @@ KERNELS = {
                                   "decode": [None, "u8", "list_u8", "olist_i64", "olist_i64", "olist_i64"]},
     "isin_indexed_string_speedup": {"owner": "C14", "decode": ["list_u8", None, "u8"]},
     "safe_map_indexed_values": {"owner": "C04", "decode": [None, "u8", None, None, "ou8"]},
+    # KT4A  ("module": the kernel lives in exetera/core/<module>.py instead of operations.py)
+    "fast_csv_reader": {"owner": "C05", "mutated": [2, 3], "module": "csv_reader_speedup"},   # column_inds, column_vals
+    "transform_to_values": {"owner": "C06"},                                   # returns a list of arrays
 }
 C08_NOSRC = ("apply_spans_count", "apply_spans_index_of_first", "apply_spans_index_of_last")
 C08_REDUCE = ("apply_spans_count", "apply_spans_first", "apply_spans_last", "apply_spans_max", "apply_spans_min",
@@ -1002,6 +1008,136 @@ def random_c06(rng, n_cases):
         out.append(gcase("categorical_transform",
                          [arr([0] * chunk_n), {"int": ic}, arr2(cinds), arr(vals), arr(coffs), arr(keys), arr(index), arr(values)],
                          unsafe=not categorical_safe(chunk_n, ic, cinds, vals, coffs, keys, index, values), _from="random"))
+    # numeric_bool_transform: a stream of its own, drawn AFTER the loop above so that the cases above stay what they were
+    import random as _random
+    out.extend(random_numeric_bool(_random.Random(rng.randrange(1 << 30)), max(54, n_cases // 4)))
+    return out
+
+
+NBT_CELLS = [b"1", b"0", b" y ", b"no", b"ON", b"off", b"yes", b"true", b"False", b"", b"  ", b"2", b"tru", b"maybe",
+             b"T", b"n ", b" oN", b"Yes ", b"TRUE", b"fALSE", b"of", b"falsy", b"truee", b"f", b"N", b" 1", b"oFF  ", b"x y"]
+NBT_GOOD = [b"1", b"0", b" y ", b"no", b"ON", b"off", b"yes", b"true", b"False", b"T", b"n ", b" oN", b"Yes ", b"fALSE"]
+NBT_WORDS = {2: [[(79, 111), (78, 110)], [(78, 110), (79, 111)]],
+             3: [[(89, 121), (69, 101), (83, 115)], [(79, 111), (70, 102), (70, 102)]],
+             4: [[(84, 116), (82, 114), (85, 117), (69, 101)]],
+             5: [[(70, 102), (65, 97), (76, 108), (83, 115), (69, 101)]]}
+
+
+def numeric_bool_safe(nel, nval, cinds, vals, coffs, ic, rows, mode):
+    """every subscript numeric_bool_transform makes is in range (a transliteration of the kernel on Python lists that checks
+    each subscript before it is made, in evaluation order; a negative one within -len..-1 wraps, still in range).  The
+    ValueError of `val in (…)` on a slice that is not of length 1 is raised by compiled and interpreted code alike: the call
+    ends there, in range so far."""
+    if not _inr(ic, len(coffs)):
+        return False
+    off = coffs[ic]
+    for r in range(rows):
+        if not _inr(ic, len(cinds)):
+            return False
+        row = cinds[ic]
+        if not (_inr(r, len(row)) and _inr(r + 1, len(row))):
+            return False
+        rs, re_ = row[r], row[r + 1]
+        length = re_ - rs
+        bs, be = 0, length - 1
+        while bs < length:
+            if not _inr(off + rs + bs, len(vals)):
+                return False
+            if vals[off + rs + bs] != 32:
+                break
+            bs += 1
+        while be >= 0:
+            if not _inr(off + rs + be, len(vals)):
+                return False
+            if vals[off + rs + be] != 32:
+                break
+            be -= 1
+        al = be - bs + 1
+        empty, valid = False, True
+        if al <= 0:
+            empty, valid = True, False
+        else:
+            a = off + rs + bs
+            val = vals[a:a + al]
+            if al == 1:
+                if len(val) != 1:
+                    return True                                 # ValueError in every mode
+                valid = val[0] in (49, 89, 121, 84, 116, 48, 78, 110, 70, 102)
+            elif al in NBT_WORDS:
+                valid = False
+                for alt in NBT_WORDS[al]:                       # `and` chains, left to right, short-circuit
+                    hit = True
+                    for k, chars in enumerate(alt):
+                        if not _inr(k, len(val)):
+                            return False
+                        if val[k] not in chars:
+                            hit = False
+                            break
+                    if hit:
+                        valid = True
+                        break
+            else:
+                valid = False
+        if not (_inr(r, nel) and _inr(r, nval)):
+            return False
+        if not valid and (mode == "strict" or (mode == "allow_empty" and not empty)):
+            break
+    return True
+
+
+def random_numeric_bool(rng, n_cases):
+    """staging arrays as the CSV reader fills them (cells of a boolean column, padded / stale entries), the three validation
+    modes, and malformed calls (short column_vals, column subscript out of range, short elements / validity, more rows
+    than were staged)"""
+    out = []
+    modes = ["strict", "allow_empty", "relaxed"]
+    for t in range(n_cases):
+        mode = modes[t % 3]
+        ncols = rng.randrange(1, 4)
+        nrows = rng.choice([0, 1, 2, 3, rng.randrange(1, 9)])
+        p_good = {"strict": 0.9, "allow_empty": 0.75, "relaxed": 0.4}[mode] if rng.random() < 0.8 else 0.3
+        cinds, vals, coffs = [], [], [0]
+        for c in range(ncols):
+            row, buf = [0], []
+            for _ in range(nrows):
+                w = rng.choice(NBT_GOOD) if rng.random() < p_good else rng.choice(NBT_CELLS)
+                if rng.random() < {"strict": 0.08, "allow_empty": 0.2, "relaxed": 0.1}[mode]:
+                    w = rng.choice([b"", b" ", b"   "])             # an empty cell (message 1 in strict mode)
+                buf.extend(w)
+                row.append(len(buf))
+            stale = rng.randrange(0, 3)                         # stale entries after the rows written in this call
+            cinds.append(row + [rng.randrange(0, 5) for _ in range(stale)])
+            vals.extend(buf + [88] * rng.randrange(0, 3))
+            coffs.append(len(vals))
+        width = max(len(r) for r in cinds)
+        cinds = [r + [0] * (width - len(r)) for r in cinds]
+        ic = rng.randrange(0, ncols)
+        rows, nel, nval = nrows, nrows, nrows
+        what = rng.randrange(14)
+        if what == 0:
+            ic = ncols + rng.randrange(0, 2)                    # the column subscript beyond the staging arrays
+        elif what == 1:
+            vals = vals[:rng.randrange(0, len(vals) + 1)]       # short column_vals
+        elif what == 2:
+            nel = rng.randrange(0, nrows + 1)                   # short elements
+        elif what == 3:
+            nval = rng.randrange(0, nrows + 1)                  # short validity
+        elif what == 4:
+            rows = nrows + rng.randrange(1, 3)                  # more rows than were staged
+        elif what == 5:
+            nel, nval = nrows + rng.randrange(1, 3), nrows + rng.randrange(0, 2)      # longer destination arrays
+        elif what == 6 and nrows:
+            rows = rng.randrange(0, nrows)                      # fewer rows than were staged
+        elif what == 7 and vals:
+            # column offsets shifted by -len(column_vals): every byte subscript is negative and wraps to the same byte (in
+            # range; the translation answers `negative_index`, which is not compared; the slices differ: `val` may be empty)
+            coffs = [o - len(vals) for o in coffs]
+        inv = rng.choice([0, 0, 0, 1, -1, 5])
+        name = rng.choice([b"f", b"flag", b"a b", b""])
+        safe = numeric_bool_safe(nel, nval, cinds, vals, coffs, ic, rows, mode)
+        out.append(gcase("numeric_bool_transform",
+                         [barr([False] * nel), barr([True] * nval), arr2(cinds), arr(vals), arr(coffs), {"int": ic},
+                          {"int": rows}, {"int": inv}, {"str": mode}, arr(name)], unsafe=not safe, _from="random"))
     return out
 
 
@@ -1441,6 +1577,216 @@ def random_c10(rng, n_cases):
 RANDOM["C10"] = random_c10
 
 
+# ----------------------------------------------------------------------------------------------------------------------
+# KT4A.  C05: fast_csv_reader (csv_reader_speedup.py) on windows of CSV text, staging arrays of every size;  C06:
+# transform_to_values on staging arrays
+# ----------------------------------------------------------------------------------------------------------------------
+CSV_Q, CSV_S, CSV_N, CSV_W = 34, 44, 10, 32
+
+
+def csv_reader_safe(source, start_index, column_inds, column_vals, column_offsets, has_header, q=CSV_Q, sep=CSV_S, nl=CSV_N,
+                    ws=CSV_W):
+    """does every subscript of fast_csv_reader stay in range?  The kernel itself on Python lists (a list raises IndexError
+    exactly where numpy does, and wraps a negative subscript the same way); an explicit `raise Exception` is defined
+    behaviour (safe)."""
+    inds = [list(r) for r in column_inds]
+    vals = list(column_vals)
+
+    def at(a, i):
+        if not -len(a) <= i < len(a):
+            raise IndexError
+        return a[i]
+    try:
+        if not inds:
+            raise IndexError                       # `.shape[1]` of an array without rows is not represented
+        maxrow = len(inds[0]) - 1
+        index, end_line_at, col, row, escaped, cand, count = start_index, start_index - 1, 0, -1 if has_header else 0, False, False, 0
+        cstart = at(at(inds, col), row) if row >= 0 else 0
+        inds_full = vals_full = False
+        col_offset, col_cnt = 0, at(column_offsets, 1)
+        while index < len(source) and at(source, index) == ws:
+            index += 1
+        if index == len(source):
+            return True
+        cell_at = index
+        steps = 0
+        while True:
+            steps += 1
+            if steps > len(source) + 8:
+                return False                        # (cannot happen: every iteration advances `index`)
+            write = end_cell = end_line = False
+            c = at(source, index)
+            if c == sep:
+                end_cell, write = (True, False) if not escaped else (False, True)
+            elif c == nl:
+                if not escaped:
+                    end_cell = end_line = True
+                    end_line_at = index
+                else:
+                    write = True
+            elif c == q:
+                if not escaped:
+                    if index != cell_at:
+                        return True                 # raise Exception
+                    escaped = True
+                elif cand:
+                    write, cand = True, False
+                elif index + 1 < len(source) and at(source, index + 1) == q:
+                    cand = True
+                elif index + 1 < len(source) and (at(source, index + 1) == sep or at(source, index + 1) == nl):
+                    escaped = False
+                elif index + 1 == len(source):
+                    pass
+                else:
+                    return True                     # raise Exception
+            else:
+                write = True
+            if write and row >= 0:
+                k = col_offset + cstart + count
+                at(vals, k)
+                if k < 0:
+                    return False                    # a negative subscript of the flat array: an error branch of the translation
+                vals[k] = c
+                count += 1
+                if cstart + count >= col_cnt:
+                    vals_full = True
+            if end_cell:
+                if row >= 0:
+                    r = at(inds, col)
+                    at(r, row + 1)
+                    r[row + 1] = cstart + count
+                if end_line:
+                    row += 1
+                    col = 0
+                    if row == maxrow:
+                        inds_full = True
+                else:
+                    col += 1
+                col_offset = at(column_offsets, col)
+                col_cnt = at(column_offsets, col + 1) - col_offset
+                if col < 0 or col + 1 < 0:
+                    return False
+                cstart = at(at(inds, col), row)
+                count = 0
+                while index + 1 < len(source) and at(source, index + 1) == ws:
+                    index += 1
+                cell_at = index + 1
+            index += 1
+            if index == len(source) or inds_full or vals_full:
+                return True
+    except IndexError:
+        return False
+
+
+def csv_gcase(src, start, inds, vals, offs, has_header, frm):
+    safe = start >= 0 and csv_reader_safe(src, start, inds, vals, offs, has_header)
+    return gcase("fast_csv_reader",
+                 [arr(src), {"int": start}, arr2(inds), arr(vals), arr(offs), {"bool": bool(has_header)},
+                  {"int": CSV_Q}, {"int": CSV_S}, {"int": CSV_N}, {"int": CSV_W}],
+                 unsafe=not safe, fuel=len(src) + 8, _from=frm)
+
+
+def derive_c05(case):
+    if case.get("op") != "csv_kernel" or not case.get("inds") or len({len(r) for r in case["inds"]}) != 1:
+        return None
+    return csv_gcase(case["src"], case["start"], case["inds"], case["vals"], case["offs"], case["has_header"], "C05")
+
+
+def random_c05(rng, n_cases):
+    out = []
+    cells = [b"", b"a", b"ab", b"abc", b" a", b"a ", b"  ", b'"a"', b'"a,b"', b'"a\nb"', b'"a""b"', b'""', b'"a" ', b'a"b', b'"a"b',
+             b"1", b"22", b'"', b'"abc', b' "a"', b"x y"]
+    for t in range(n_cases):
+        ncols = rng.randrange(1, 4)
+        nrec = rng.choice([0, 1, 2, 3, rng.randrange(1, 7)])
+        text = b""
+        for r in range(nrec):
+            k = ncols if rng.random() < 0.85 else rng.randrange(1, ncols + 2)          # a record with too few / too many cells
+            text += b",".join(rng.choice(cells) for _ in range(k))
+            text += b"\n" if (r + 1 < nrec or rng.random() < 0.8) else b""
+            if rng.random() < 0.1:
+                text += rng.choice([b"\n", b"  ", b" \n"])
+        src = list(text)
+        maxrow = rng.choice([1, 2, 3, nrec + 1, rng.randrange(1, 9)])
+        budgets = [rng.choice([1, 2, 3, 4, 8, 16, 40]) for _ in range(ncols)]
+        offs = [0]
+        for b in budgets:
+            offs.append(offs[-1] + b)
+        has_header = rng.random() < 0.5
+        # staging arrays as the driver hands them over: zeros on the first call of a window, the previous call's content
+        # (stale offsets, first entry of a row = where the column's bytes continue) on a resumed one
+        if rng.random() < 0.7:
+            inds = [[0] * (maxrow + 1) for _ in range(ncols)]
+        else:
+            inds = [[rng.randrange(0, 4)] + [rng.randrange(0, 6) for _ in range(maxrow)] for _ in range(ncols)]
+        vals = [0] * offs[-1] if rng.random() < 0.7 else [rng.randrange(0, 256) for _ in range(offs[-1])]
+        start = 0 if rng.random() < 0.6 else rng.randrange(0, len(src) + 2)
+        what = rng.randrange(14)
+        if what == 0:
+            offs = offs[:-1]                                   # column_offsets one entry short
+        elif what == 1:
+            vals = vals[:rng.randrange(0, len(vals) + 1)]      # column_vals shorter than the budgets
+        elif what == 2 and ncols > 1:                          # (an array WITHOUT rows is not representable: `shape1E`)
+            inds = inds[:-1]                                   # fewer staging rows than columns in the text
+        elif what == 3:
+            maxrow = 0
+            inds = [[0] for _ in range(ncols)]                 # no room for a single row
+        out.append(csv_gcase(src, start, inds, vals, offs, has_header, "random"))
+    return out
+
+
+def transform_to_values_safe(cinds, coffs, ic, rows):
+    if not _inr(ic, len(coffs)):
+        return False
+    if rows > 0 and not (_inr(ic, len(cinds)) and rows + 1 <= len(cinds[ic])):
+        return False
+    return True
+
+
+def random_c06_kt4a(rng, n_cases):
+    out = []
+    words = [b"", b"a", b"ab", b"2020-01-01", b"x y", b"12:00"]
+    for t in range(n_cases):
+        ncols = rng.randrange(1, 4)
+        nrows = rng.choice([0, 1, 2, 3, rng.randrange(1, 8)])
+        cinds, vals, coffs = [], [], [0]
+        for c in range(ncols):
+            row, buf = [0], []
+            for _ in range(nrows):
+                buf.extend(rng.choice(words))
+                row.append(len(buf))
+            cinds.append(row + [rng.randrange(0, 5) for _ in range(rng.randrange(0, 3))])
+            vals.extend(buf + [88] * rng.randrange(0, 3))
+            coffs.append(len(vals))
+        width = max(len(r) for r in cinds)
+        cinds = [r + [0] * (width - len(r)) for r in cinds]
+        ic = rng.randrange(0, ncols)
+        rows = nrows if rng.random() < 0.8 else rng.randrange(0, nrows + 3)
+        what = rng.randrange(12)
+        if what == 0:
+            ic = ncols + rng.randrange(0, 2)                    # the column subscript beyond the staging arrays
+        elif what == 1:
+            vals = vals[:rng.randrange(0, len(vals) + 1)]       # slices are clamped: never an error
+        elif what == 2:
+            cinds = [[x - rng.randrange(0, 3) for x in r] for r in cinds]      # negative slice bounds: Python's rule
+        elif what == 3:
+            coffs = [x - 2 for x in coffs]
+        out.append(gcase("transform_to_values", [arr2(cinds), arr(vals), arr(coffs), {"int": ic}, {"int": rows}],
+                         unsafe=not transform_to_values_safe(cinds, coffs, ic, rows), _from="random"))
+    return out
+
+
+def random_c06_all(rng, n_cases):
+    """the cases of `random_c06` for a seed are unchanged (same count, drawn first); the KT4A kernels come after them"""
+    first = random_c06(rng, n_cases)
+    return first + random_c06_kt4a(rng, max(54, n_cases // 5))
+
+
+DERIVE["C05"] = derive_c05
+RANDOM["C05"] = random_c05
+RANDOM["C06"] = random_c06_all
+
+
 def extra_cases(owner, cases, tier, rng):
     owner = owner.upper()
     nd = QUICK_DERIVED if tier == "quick" else 20 * QUICK_DERIVED
@@ -1496,6 +1842,8 @@ def _decode(np, a):
         return np.int64(a["int"])
     if "bool" in a:
         return bool(a["bool"])
+    if "str" in a:
+        return a["str"]
     return None
 
 
@@ -1524,6 +1872,8 @@ def _canon(np, r):
     if isinstance(r, tuple):
         return [_canon(np, x) for x in r]
     if isinstance(r, np.ndarray):
+        if r.ndim == 2:
+            return [[int(x) for x in row] for row in r.tolist()]        # a 2-D array written in place (KT4A: column_inds)
         if r.dtype == bool:
             return [bool(x) for x in r.tolist()]
         return [int(x) for x in r.tolist()]
@@ -1541,9 +1891,15 @@ def impl(case):
     if case.get("_unsafe") and e["jit"]:
         return {"skipped": "a call that may subscript out of range is not executed in the compiled mode"}
     np, ops = e["np"], e["ops"]
+    module = KERNELS.get(case["kernel"], {}).get("module")
+    if module is not None:
+        import importlib
+        ops = importlib.import_module("exetera.core." + module)
     fn = getattr(ops, case["kernel"])
     dec = KERNELS.get(case["kernel"], {}).get("decode")
     args = [_decode(np, a) if not dec or dec[k] is None else _decode_as(np, a, dec[k]) for k, a in enumerate(case["args"])]
+    for i, dt in (KERNELS.get(case["kernel"], {}).get("dtypes") or {}).items():
+        args[i] = args[i].astype(dt)         # array arguments whose dtype at the real call site is not int64
     ret = fn(*args)
     ncomp = KERNELS.get(case["kernel"], {}).get("generator")
     if ncomp:
